@@ -191,9 +191,91 @@ fn payload_pool(rng: &mut Rng) -> Vec<Tree> {
     v
 }
 
+/// a generated enum / union read from a document directly and through the dynamic `any` (parse into `Any`, then view
+/// as the type): the same outcome — the same re-serialization, or a rejection both ways
+pub fn both<T: serde::de::DeserializeOwned + serde::Serialize>(doc: &str) -> (Result<String, String>, Result<String, String>) {
+    let direct = conjure_serde::json::client_from_str::<T>(doc).map_err(|e| e.to_string()).and_then(|v| conjure_serde::json::to_string(&v).map_err(|e| e.to_string()));
+    let via = conjure_serde::json::client_from_str::<conjure_object::Any>(doc)
+        .map_err(|e| e.to_string())
+        .and_then(|a| a.deserialize_into::<T>().map_err(|e| e.to_string()))
+        .and_then(|v| conjure_serde::json::to_string(&v).map_err(|e| e.to_string()));
+    (direct, via)
+}
+
+pub fn via_any_cases(cs: &mut Cases) {
+    let enums = ["\"RED\"", "\"GREEN\"", "\"BLUE_2\"", "\"PURPLE\"", "\"X_9\"", "\"lower\"", "\"\"", "3", "null", "{\"RED\":null}"];
+    let unions = [
+        "{\"type\":\"label\",\"label\":\"x\"}",
+        "{\"label\":\"x\",\"type\":\"label\"}",
+        "{\"type\":\"circle\",\"circle\":1.5}",
+        "{\"type\":\"circle\",\"circle\":\"NaN\"}",
+        "{\"type\":\"square\",\"square\":{\"a\":1,\"b\":\"s\"}}",
+        "{\"type\":\"bazqux\",\"bazqux\":[1,{\"k\":null}]}",
+        "{\"bazqux\":[1,{\"k\":null}],\"type\":\"bazqux\"}",
+        "{\"type\":\"zeta\",\"zeta\":\"later than type\"}",
+        "{\"zeta\":1,\"type\":\"zeta\"}",
+        "{\"type\":\"foobar\",\"bazqux\":1}",
+        "{\"bazqux\":1,\"type\":\"foobar\"}",
+        "{\"type\":\"label\",\"circle\":1.5}",
+        "{\"type\":\"label\"}",
+        "\"label\"",
+    ];
+    let mut run = |cs: &mut Cases, what: &str, doc: &str, r: Result<(Result<String, String>, Result<String, String>), String>| {
+        cs.push("via-any", "noop".into(), "noop".into(), true, format!("{} from {} directly and through an Any", what, doc));
+        match r {
+            Err(p) => cs.fail_last("via-any:panic", p),
+            Ok((direct, via)) => {
+                if direct.is_ok() != via.is_ok() || (direct.is_ok() && direct != via) {
+                    cs.fail_last("via-any:differs", format!("{} from {}: read directly {:?}, viewed through an Any {:?}", what, doc, direct, via));
+                }
+            }
+        }
+    };
+    // maps with typed keys: in JSON every key is a string, which the `any` route must read back as the key type does
+    // directly — doubles of either sign, in every spelling a double key is written in
+    let keyed: [(&str, &str); 8] = [
+        ("d", "{\"-2.5\":1,\"1.5\":2,\"NaN\":3,\"-Infinity\":4,\"Infinity\":5}"),
+        ("d", "{\"-0.1\":1,\"0.1\":2,\"-1e300\":3,\"1e-7\":4,\"-5\":5,\"7\":6}"),
+        ("d", "{\"-0\":1}"),
+        ("l", "{\"-9007199254740991\":1,\"9007199254740991\":2,\"-1\":3,\"0\":4}"),
+        ("i", "{\"-2147483648\":1,\"2147483647\":2,\"-7\":3}"),
+        ("b", "{\"true\":1,\"false\":2}"),
+        ("u", "{\"00000000-0000-0000-0000-000000000001\":1}"),
+        ("d", "{\"inf\":1}"),
+    ];
+    for (k, d) in keyed {
+        let d2 = d.to_string();
+        let r = match k {
+            "d" => guarded(move || both::<std::collections::BTreeMap<conjure_object::DoubleKey, i32>>(&d2)),
+            "l" => guarded(move || both::<std::collections::BTreeMap<conjure_object::SafeLong, i32>>(&d2)),
+            "i" => guarded(move || both::<std::collections::BTreeMap<i32, i32>>(&d2)),
+            "b" => guarded(move || both::<std::collections::BTreeMap<bool, i32>>(&d2)),
+            _ => guarded(move || both::<std::collections::BTreeMap<conjure_object::Uuid, i32>>(&d2)),
+        };
+        run(cs, &format!("a map keyed by {}", match k { "d" => "double", "l" => "safelong", "i" => "integer", "b" => "boolean", _ => "uuid" }), d, r);
+    }
+    for d in enums {
+        let d2 = d.to_string();
+        run(cs, "Color (default configuration)", d, guarded(move || both::<verifgen::plain::Color>(&d2)));
+        let d2 = d.to_string();
+        run(cs, "Color (exhaustive)", d, guarded(move || both::<verifgen::exhaustive::Color>(&d2)));
+        let d2 = format!("[{},\"RED\"]", d);
+        run(cs, "list<Color> (exhaustive)", &d2.clone(), guarded(move || both::<Vec<verifgen::exhaustive::Color>>(&d2)));
+    }
+    for d in unions {
+        let d2 = d.to_string();
+        run(cs, "Shape (default configuration)", d, guarded(move || both::<verifgen::plain::Shape>(&d2)));
+        let d2 = d.to_string();
+        run(cs, "Shape (exhaustive)", d, guarded(move || both::<verifgen::exhaustive::Shape>(&d2)));
+        let d2 = format!("{{\"k\":{}}}", d);
+        run(cs, "map<string, Shape> (default configuration)", &d2.clone(), guarded(move || both::<std::collections::BTreeMap<String, verifgen::plain::Shape>>(&d2)));
+    }
+}
+
 pub fn cases(seed: u64, tier: Tier) -> Cases {
     let mut rng = Rng::new(seed);
     let mut cs = Cases::new("C10");
+    via_any_cases(&mut cs);
     let g = Gen::new();
 
     // ---- enums
